@@ -95,11 +95,15 @@ class DescriptorFormat:
             "sub_decay_pattern": sub_decay_pattern,
         }
         self.old_config = copy(DescriptorFormat.config)
+        self._saved_configs: list[dict[str, str]] = []
 
     def __enter__(self) -> None:
+        old_config = copy(DescriptorFormat.config)
         self.set_config(**self.new_config)
+        self._saved_configs.append(old_config)
 
     def __exit__(self, *args: list[Any]) -> None:
+        self.old_config = self._saved_configs.pop()
         self.set_config(**self.old_config)
 
     @staticmethod
